@@ -261,8 +261,8 @@ func ruleTokenPos(c *Ctx, r *Report, rule string) {
 // stateFuncs lists the functions of type stateFn (by signature).
 func (c *Ctx) stateFuncs() map[string]*ast.FuncDecl {
 	out := map[string]*ast.FuncDecl{}
-	st := namedType(c.Bcl, "stateFn")
-	if st == nil {
+	scheme := c.lexStates()
+	if scheme == nil {
 		return out
 	}
 	for _, it := range c.sortedDecls() {
@@ -272,7 +272,7 @@ func (c *Ctx) stateFuncs() map[string]*ast.FuncDecl {
 			continue
 		}
 		sig := f.Type().(*types.Signature)
-		if sig.Recv() == nil && types.Identical(sig, st.Underlying()) {
+		if sig.Recv() == nil && types.Identical(sig, scheme.sig) {
 			out[funcName(f)] = fd
 		}
 	}
@@ -711,6 +711,21 @@ func ruleStringOpaque(c *Ctx, r *Report, rule string) {
 		}
 		nexts := strings.Count(log, "next#")
 		failed := strings.Contains(log, "fail")
+		// a scanning loop in a helper reports the failure to the state function, which fails right after it
+		failedAfter := failed
+		if !failed && closed {
+			after := false
+			for _, e := range p.Log {
+				if e == "}exit" {
+					after = true
+					continue
+				}
+				if after {
+					failedAfter = e == "fail"
+					break
+				}
+			}
+		}
 		switch {
 		case fact(1, `'"'`) == "t":
 			seen["close"]++
@@ -724,7 +739,7 @@ func ruleStringOpaque(c *Ctx, r *Report, rule string) {
 			switch {
 			case fact(2, "eof") == "t" || fact(2, `'\n'`) == "t":
 				seen["esc-fail"]++
-				if !failed {
+				if !failedAfter {
 					ok, why = false, "a backslash before a newline / the end of input must fail: "+log
 				}
 			case fact(2, "eof") == "f" && fact(2, `'\n'`) == "f":
@@ -737,7 +752,7 @@ func ruleStringOpaque(c *Ctx, r *Report, rule string) {
 			}
 		case fact(1, "eof") == "t" || fact(1, `'\n'`) == "t":
 			seen["unterminated"]++
-			if !failed || nexts != 1 {
+			if !failedAfter || nexts != 1 {
 				ok, why = false, "a newline / the end of input inside a literal must fail: "+log
 			}
 		default:
@@ -919,7 +934,7 @@ func ruleLexerStops(c *Ctx, r *Report, rule string) {
 				okNil := false
 				if i+1 < len(list) {
 					if rs, ok := list[i+1].(*ast.ReturnStmt); ok && len(rs.Results) == 1 {
-						if id, ok := rs.Results[0].(*ast.Ident); ok && id.Name == "nil" {
+						if c.isStopState(rs.Results[0]) {
 							okNil = true
 						}
 					}
